@@ -18,7 +18,8 @@ EXPLANATION = (
     'context down) and the context\'s sheet is derived from that address; (C03.4) the name->address map '
     'handed to the parser holds address strings; (C03.5) range registry keys are written and read with '
     'the same qualification, a missing cell evaluates to BLANK; (C03.6) ranges are expanded row-major from '
-    'sorted rows and columns; (C03.7) resolve_address and resolve_ranges both unquote the sheet part with resolve_sheet.')
+    'sorted rows and columns; (C03.7) resolve_address and resolve_ranges both unquote the sheet part with resolve_sheet.'
+    ' (C03.8) the reader, interpreted on an abstract workbook that repeats a formula text on two sheets, gives every cell a formula object bound to its own sheet; (C03.1/C03.3) also: XLFormula built for two sheets from one text, and one reference node resolved under two contexts, carry nothing over.')
 NOT_DECIDED = 'range arithmetic of openpyxl (range_boundaries), values of the cells'
 TRUSTED = ['openpyxl.utils.cell.range_boundaries / get_column_letter behave as documented']
 
